@@ -41,7 +41,9 @@ def oracle(c):
     if c.meta.get("kind") == "pair":
         if len(c.impl_out) == 2 and c.lines == [f"asm {rvasmgen.hx(c.meta['text'])}", f"asm {rvasmgen.hx(c.meta['text2'])}"]:
             f = rvasmgen.check_valid(Case("asm", [c.lines[0]], None, c.meta, [c.impl_out[0]]), PROP)
-            if not f and c.impl_out[0] != c.impl_out[1]:
+            same = c.impl_out[0] == c.impl_out[1] or (c.impl_out[0].startswith("PE") and c.impl_out[1].startswith("PE")
+                                                      and c.impl_out[0].split()[1] == c.impl_out[1].split()[1])   # same error class; line numbers legitimately differ
+            if not f and not same:
                 f = [Failure("oracle", PROP, f"spelling/comments/blank lines change the result: {c.meta['text']!r} vs {c.meta['text2']!r}", "asm:spelling-changes-result")]
             return f
         return []
